@@ -304,6 +304,57 @@ def run_one(drv, rng, V, stats, scenario, n_resets, wseed):
         sim.close()
 
 
+def run_generated(rng, V, stats, n_scenarios, n_resets):
+    """Generated topologies (1-4 networks, private ones of mixed prefix lengths, in one or several RFC 1918 blocks,
+    public ones, routers and firewall rules): consecutive re-labellings of the bare world; every draw validated and
+    every table compared with the initial table pushed through the published maps."""
+    import builtins
+    from .worldgen import gen_scenario, make_world, world_reset
+
+    def no_exit(code=0):
+        raise RuntimeError(f"exit({code}) called")
+    orig_exit = builtins.exit
+    builtins.exit = no_exit
+    try:
+        for i in range(n_scenarios):
+            s = rng.randrange(1 << 30)
+            objs = gen_scenario(random.Random(s), one_spelling=True)
+            rep = {"kind": "generated", "scenario_seed": s}
+            try:
+                w = make_world(objects=objs, dynamic=True, seed=rng.choice([42, 1, 7]))
+            except Exception as e:
+                continue
+            if not w._ip_to_hostname:
+                continue
+            t0 = tables(w)
+            privs = [k for k in t0["nets"] if private(k.split("/")[0])]
+            stats["generated_scenarios"] = stats.get("generated_scenarios", 0) + 1
+            if len({k.split("/")[1] for k in privs}) > 1:
+                stats["generated_mixed_prefix"] = stats.get("generated_mixed_prefix", 0) + 1
+            for r in range(n_resets):
+                try:
+                    world_reset(w)
+                except BaseException as e:
+                    V.fail("generated:reset-raises", f"re-labelling {r + 1} of a generated scenario (networks {sorted(t0['nets'])}) raised {e!r}", rep)
+                    break
+                stats["resets"] += 1
+                sig = {str(k): str(v) for k, v in w._ip_mapping.items() if k != "random"}
+                tau = {str(k): str(v) for k, v in w._network_mapping.items()}
+                if len(privs) >= 2:
+                    stats["nontrivial"].add(json.dumps(["generated", s, r, sorted(tau.items())]))
+                try:
+                    errs = validate_draw(t0, sig, tau)
+                    exp, got = push(t0, sig, tau), tables(w)
+                    errs += [f"table '{k}' is not the initial table pushed through the published maps" for k in exp if exp[k] != got[k]]
+                except Exception as e:
+                    errs = [f"published maps are incomplete: {e!r}"]
+                if errs:
+                    V.fail("generated:" + errs[0].split(":")[0].split(" ")[0], f"re-labelling {r + 1} of a generated scenario (networks {sorted(t0['nets'])}): {errs[0]}", dict(rep, net_map=tau, errors=errs[:5]))
+                    break
+    finally:
+        builtins.exit = orig_exit
+
+
 def main(tier):
     T = Timer()
     V = Verdict("C13")
@@ -320,6 +371,7 @@ def main(tier):
             runs = [("scenario1_small", 40), ("scenario1", 25), ("three_nets", 40)] if tier == "quick" else [("scenario1_small", 60), ("scenario1", 40), ("three_nets", 60)] * 4
             for sc, n in runs:
                 run_one(drv, rng, V, stats, sc, n, rng.choice([42, 1, 7, 1234]) + (seed() if tier != "quick" else 0))
+            run_generated(rng, V, stats, 60 if tier == "quick" else 1500, 4)
         finally:
             drv.close()
     code, nviol = V.finish()
@@ -328,11 +380,11 @@ def main(tier):
            "trusted_base": TRUSTED_BASE + ["Faker / random as seeded oracles whose outputs (the published maps) are validated on every reset rather than modelled"],
            "theorems": info.get("theorems", []), "axioms_seen": info.get("axioms_seen", []),
            "evaluations": stats["resets"], "distinct_nontrivial": len(stats["nontrivial"]),
-           "rule": "consecutive resets with use_dynamic_addresses on the three shipped scenarios; per reset: draw validated, all tables compared with the initial tables pushed through the published maps, start view / win conditions / goal text compared with their translations, a translated 9-step script compared with the static game, model walks on the re-labelled tables; non-trivial = re-labelling with >= 2 private networks (distinct maps)",
-           "samples": stats["samples"][:2], "scripts_replayed": stats["scripts"], "model_walk_steps": stats["walk_steps"], "proof_failures": V.proof_failures}
+           "rule": "consecutive resets with use_dynamic_addresses on the three shipped scenarios and on generated topologies (bare world: draws and tables only); per reset: draw validated, all tables compared with the initial tables pushed through the published maps, start view / win conditions / goal text compared with their translations, a translated 9-step script compared with the static game, model walks on the re-labelled tables; non-trivial = re-labelling with >= 2 private networks (distinct maps)",
+           "samples": stats["samples"][:2], "scripts_replayed": stats["scripts"], "generated_scenarios": stats.get("generated_scenarios", 0), "generated_mixed_prefix": stats.get("generated_mixed_prefix", 0), "model_walk_steps": stats["walk_steps"], "proof_failures": V.proof_failures}
     write_evidence("C13", tier, "proof", cov, T.s(), nviol,
                    ["public draws come from Faker and are assumed public and non-overlapping; every real draw is checked",
-                    "generated scenarios are not used for C13 (the shipped ones with 2-4 private networks are)"])
+                    "generated scenarios: every network is written in one spelling and networks do not overlap (two spellings of one block are two networks to the loader and may be mapped onto each other)"])
     return code
 
 
